@@ -79,6 +79,18 @@ def check_log(ctx, log, iname, fresh_solver=None, expect_restart=False):
     if traj_finite:
         early = [k for k in range(N) if done(k)]
         ctx.true("stop", not early and done(N), "solve/stop-criterion", {"criteria": crit, "N": N, "times": [t["time"] for t in traj][-4:], "satisfied before end at": early[:3]}, cls="stop")
+    # the kind of time step (one global value / one value per cell) is the one THIS call asked for
+    for it in its:
+        want_local = bool("dtlocal" in log.directives)
+        ctx.true("step-kind", (np.ndim(it["main"]["dt"]) == 1) == want_local, "solve/%s" % ("global-step-used-although-dtlocal-requested" if want_local else "local-time-steps-used-although-not-requested"),
+                 {"directives": list(log.directives), "dt passed to step": it["main"]["dt"]}, cls="step-advance")
+    # main steps are CFL steps of the state they start from (recomputed here with the CFL number of this call)
+    if fresh_solver is not None and "cfl_step" in fresh_solver and traj_finite and not log.directives.get("dtlocal"):
+        for it in its:
+            with probes.quiet():
+                exp = float(fresh_solver["cfl_step"](it["from"]))
+            if np.isfinite(exp) and np.ndim(it["main"]["dt"]) == 0:
+                ctx.true("main-step-length", float(it["main"]["dt"]) == exp, "solve/main-step-not-the-cfl-step-of-this-call", {"used": float(it["main"]["dt"]), "cfl step": exp, "cfl": log.condition}, cls="step-advance")
     # (6) caller's field untouched
     same = (log.f_after["time"] == log.f_before["time"] and log.f_after["it"] == log.f_before["it"]
             and all(np.array_equal(a, b, equal_nan=True) for a, b in zip(log.f_after["data"], log.f_before["data"])))
@@ -144,6 +156,9 @@ def check_log(ctx, log, iname, fresh_solver=None, expect_restart=False):
         frm = its[k]["from"]
         dts = float(np.min(ev["dt"]))
         cflstep = float(np.min(its[k]["dt"])) if its[k]["dt"] is not None else np.inf
+        if fresh_solver is not None and "cfl_step" in fresh_solver:
+            with probes.quiet():        # recomputed from the trajectory state and the CFL number of this call
+                cflstep = min(cflstep, float(fresh_solver["cfl_step"](frm)))
         # the side-step length is a difference of two times: allow the round-off of the accumulated time
         good = ev["t0"] == frm["time"] and dts >= 0.0 and dts <= cflstep * (1 + 1e-12) + 8 * ulp(abs(ev["t0"]) + abs(dts))
         ctx.true("snapshot-origin", good, "solve/snapshot-side-step" + ("/backward" if dts < 0 else "/not-from-trajectory-state" if ev["t0"] != frm["time"] else "/longer-than-cfl-step"),
@@ -258,6 +273,17 @@ def solve_hist(ctx, rng, idx):
     ctx.describe(integrator=iname, cfl=cfl, dtlocal=dtlocal, t_start=t0, call="restart" if restart else "solve", start_it=f.it,
                  tsave=tsave, tsave_kind=tkind, stop=stop, dry_run_times=times, **s.desc())
     solver = make()
+    warm = bool(rng.random() < 0.3) and not (restart and iname == "gear")
+    if warm:      # the SAME integrator object has already been used with another CFL number (solve, sometimes followed by a restart)
+        try:
+            wcfl = cfl * float(rng.choice([0.4, 1.9]))
+            pre = solver.solve(s.field, wcfl, stop={"maxit": 2})
+            if rng.random() < 0.5:
+                solver.restart(pre[-1], wcfl * 0.7, stop={"maxit": 1}, directives={"dtlocal": True})
+        except np.linalg.LinAlgError:
+            pass
+        del solvelog.LOGS[:]
+        ctx.describe(integrator_used_before_with_another_cfl=True)
     call = solver.restart if restart else solver.solve
     try:
         call(f, cfl, tsave, stop=stop or None, directives=directives)
@@ -268,7 +294,8 @@ def solve_hist(ctx, rng, idx):
     if not logs:
         ctx.true("log", False, "solve/raised-before-returning", None)
         return
-    fresh = {"make": make, "field": lambda st: ffield.fdata(s.model, s.mesh, st["data"], t=st["time"])}
+    fresh = {"make": make, "field": lambda st: ffield.fdata(s.model, s.mesh, st["data"], t=st["time"]),
+             "cfl_step": lambda st: np.min(s.disc.calc_timestep(ffield.fdata(s.model, s.mesh, st["data"], t=st["time"]), cfl))}
     if implicit and s.model.islinear and s.rname.startswith("muscl"):
         # the model declares itself linear, so the real integrator freezes the Jacobian of its first step although a limited
         # reconstruction makes the operator nonlinear: a fresh integrator cannot reproduce that history (outside C07)
